@@ -8,6 +8,7 @@ import (
 	"testing"
 	"time"
 
+	"github.com/Breeze0806/gobinlog"
 	"pgregory.net/rapid"
 
 	"verif/fakemaster"
@@ -27,6 +28,10 @@ type HandshakeCase struct {
 	Cuts     []int
 	// Deadlines: bit i set = attempt i runs under a context with a (far) deadline
 	Deadlines int `json:",omitempty"`
+	// Rewind[i] (attempts 1..): -1 nothing; k >= 0: before attempt i the caller puts the streamer back with
+	// SetBinlogPosition to the end label of its k-th accepted transaction (k = 0: the start position),
+	// clamped to what has been accepted; that attempt must ask for exactly that position
+	Rewind []int `json:",omitempty"`
 }
 
 // cutAfterCommits truncates the script right after the n-th commit event it carries.
@@ -115,6 +120,19 @@ func checkC07(c *HandshakeCase) error {
 	for i := 0; i <= len(c.Cuts); i++ {
 		at := attempt{l: l}
 		connectFails := false
+		if i > 0 && i < len(c.Rewind) && c.Rewind[i] >= 0 {
+			k := c.Rewind[i]
+			if k > accepted {
+				k = accepted
+			}
+			to := start
+			if k > 0 {
+				to = exp[k-1].Next
+			}
+			ss.s.SetBinlogPosition(gobinlog.Position{Filename: to.File, Offset: to.Off})
+			allowed = map[hist.Pos]bool{to: true}
+			accepted = k
+		}
 		if i < len(c.Cuts) {
 			switch {
 			case c.Cuts[i] == -1: // the master refuses the session right at the greeting
@@ -260,6 +278,12 @@ func TestC07(t *testing.T) {
 		for i := 0; i < na; i++ {
 			c.Cuts = append(c.Cuts, rapid.IntRange(-2, 3).Draw(rt, "cut"))
 		}
+		if na > 0 && rapid.IntRange(0, 2).Draw(rt, "rewinds") == 0 {
+			c.Rewind = []int{-1}
+			for i := 1; i <= na; i++ {
+				c.Rewind = append(c.Rewind, rapid.IntRange(-1, 3).Draw(rt, "rewind_to"))
+			}
+		}
 		// a cut of 0 means: close before any commit (use 1-based semantics: 0 -> cut at first commit is skipped)
 		nt := c.ServerID >= 1<<31 || c.H.Base >= 1<<31 || len(c.Cuts) >= 1
 		cls := []string{fmt.Sprintf("attempts=%d", len(c.Cuts)+1)}
@@ -271,6 +295,9 @@ func TestC07(t *testing.T) {
 		}
 		if c.StartAt4 {
 			cls = append(cls, "offset=4")
+		}
+		if len(c.Rewind) > 0 {
+			cls = append(cls, "caller-repositions-between-attempts")
 		}
 		rec.Case(nt, c, cls...)
 		if nt {
